@@ -5,6 +5,7 @@
 package vos
 
 import (
+	"github.com/sanonone/kektordb/internal/verif/shim/vsched"
 	"io"
 	"io/fs"
 	"os"
@@ -93,10 +94,15 @@ var (
 	Args        = os.Args
 )
 
-func IsNotExist(err error) bool               { return os.IsNotExist(err) }
-func IsExist(err error) bool                  { return os.IsExist(err) }
-func IsPermission(err error) bool             { return os.IsPermission(err) }
-func Stat(name string) (FileInfo, error)      { return os.Stat(name) }
+func IsNotExist(err error) bool   { return os.IsNotExist(err) }
+func IsExist(err error) bool      { return os.IsExist(err) }
+func IsPermission(err error) bool { return os.IsPermission(err) }
+
+// Stat is a scheduling point too: "look, then delete" on a goroutine of its own starts here.
+func Stat(name string) (FileInfo, error) {
+	vsched.Point("os:stat")
+	return os.Stat(name)
+}
 func Lstat(name string) (FileInfo, error)     { return os.Lstat(name) }
 func ReadDir(name string) ([]DirEntry, error) { return os.ReadDir(name) }
 func ReadFile(name string) ([]byte, error)    { return os.ReadFile(name) }
@@ -117,10 +123,16 @@ func SameFile(a, b FileInfo) bool             { return os.SameFile(a, b) }
 func Rename(oldpath, newpath string) error {
 	return around(Event{Op: "rename", Path: oldpath, Path2: newpath}, func() error { return os.Rename(oldpath, newpath) })
 }
+
+// Remove and RemoveAll are scheduling points of a schedule exploration (nothing happens outside
+// one): a deletion that the code under test performs on a goroutine of its own can be delayed
+// past the caller's next operations.
 func Remove(name string) error {
+	vsched.Point("os:remove")
 	return around(Event{Op: "remove", Path: name}, func() error { return os.Remove(name) })
 }
 func RemoveAll(name string) error {
+	vsched.Point("os:removeall")
 	return around(Event{Op: "removeall", Path: name}, func() error { return os.RemoveAll(name) })
 }
 func MkdirAll(name string, perm FileMode) error {
